@@ -54,6 +54,10 @@ pub struct Case {
     pub smart: bool,
     pub steps: Vec<Step>,
     pub probes: Vec<(u8, u16)>,
+    /// restarts create the new context with the candidate list switched OFF and switch it on by update-engine
+    /// (a front-end may well start that way); the learned choices must be there all the same
+    #[serde(default)]
+    pub restart_via_update: bool,
 }
 
 fn words() -> Vec<String> {
@@ -255,8 +259,16 @@ pub fn run_case(run: &Run, c: &Case, st: &mut Stats) -> Result<(), Failure> {
             }
         }
         if step.restart {
-            ctx = Ctx::new(opts, &sb).map_err(|p| fail(&panic_kind(&p), format!("a new context cannot be created over the store {:?}: {p}", sb.read_selections().map(|b| String::from_utf8_lossy(&b).to_string())), c, &log))?;
-            log.push("RESTART".into());
+            let mut o0 = opts;
+            if c.restart_via_update {
+                o0.psug = false;
+                st.label("restart-with-the-list-off-then-update-engine");
+            }
+            ctx = Ctx::new(o0, &sb).map_err(|p| fail(&panic_kind(&p), format!("a new context cannot be created over the store {:?}: {p}", sb.read_selections().map(|b| String::from_utf8_lossy(&b).to_string())), c, &log))?;
+            if c.restart_via_update {
+                ctx.update(opts, &sb).map_err(|p| pf(p, &log))?;
+            }
+            log.push(if c.restart_via_update { "RESTART(list off, then update-engine)".into() } else { "RESTART".into() });
             for v in restarted_since.values_mut() {
                 *v = true;
             }
@@ -267,7 +279,17 @@ pub fn run_case(run: &Run, c: &Case, st: &mut Stats) -> Result<(), Failure> {
     // (those are the ones the engine has derived a choice for before the base was possibly re-learned).
     let store = sb.parsed_selections().unwrap_or_default();
     let own_store: HashMap<String, String> = store.iter().filter(|(k, _)| own.contains(*k)).map(|(k, v)| (k.clone(), v.clone())).collect();
-    let ctx2 = Ctx::new(opts, &sb).map_err(|p| fail(&panic_kind(&p), format!("a new context cannot be created over the final store: {p}"), c, &log))?;
+    let ctx2 = {
+        let mut o0 = opts;
+        if c.restart_via_update {
+            o0.psug = false;
+        }
+        let mut x = Ctx::new(o0, &sb).map_err(|p| fail(&panic_kind(&p), format!("a new context cannot be created over the final store: {p}"), c, &log))?;
+        if c.restart_via_update {
+            x.update(opts, &sb).map_err(|p| pf(p, &log))?;
+        }
+        x
+    };
     let sk = &pools().suffix_keys;
     let mut bigs: Vec<(String, bool)> = vec![];
     for (wi, si) in &c.probes {
@@ -431,14 +453,15 @@ pub fn strategy() -> impl Strategy<Value = Case> {
     ];
     let detour = prop_oneof![4 => Just(None), 1 => proptest::sample::select(vec!['k', 'e', 'r', 'a']).prop_map(Some)];
     let step = (kind, prop_oneof![3 => Just(None), 7 => any::<u16>().prop_map(Some)], proptest::bool::weighted(0.3), detour).prop_map(|(kind, commit, restart, detour)| Step { kind, commit, restart, detour });
-    (any::<bool>(), any::<bool>(), proptest::collection::vec(step, 2..9), proptest::collection::vec((any::<u8>(), any::<u16>()), 3..4))
-        .prop_map(|(english, smart, steps, probes)| Case { english, smart, steps, probes })
+    (any::<bool>(), any::<bool>(), proptest::collection::vec(step, 2..9), proptest::collection::vec((any::<u8>(), any::<u16>()), 3..4), proptest::bool::weighted(0.25))
+        .prop_map(|(english, smart, steps, probes, restart_via_update)| Case { english, smart, steps, probes, restart_via_update })
 }
 
 pub fn run(run: &Run) {
     two_own_decompositions(run);
     run.sharded("learn-retype-restart", 16, run.tier.pick(250, 6000), 400, strategy, |_| (), |c: &Case, st, _| run_case(run, c, st));
     run.require_label("retyped-after-restart", 30);
+    run.require_label("restart-with-the-list-off-then-update-engine", 30);
     run.require_label("suffixed-text-step", 100);
     run.require_label("commit-after-backspace", 100);
     run.require_label("learning-commit", 100);
